@@ -26,3 +26,4 @@ def check(A):
     from . import C01
     C01.decode_cases(A, A.model.const_value(A.model.module('packet'), 'MESSAGE'), prefix='C04')
     R.asgi_body_rule(A, 'C04')
+    R.asgi_wait_fields_rule(A, 'C04')
